@@ -22,10 +22,12 @@ using namespace primitiv;
 using vh::BadOp;
 
 static long g_live = 0;
+static long g_fail_allocs = 0;   // the next that many device allocations fail (op `failnext`)
 
 // Same body as devices::{Naive,Eigen}::new_handle (malloc of 4*size bytes, freed
 // by the last owner), plus the counter.
 static std::shared_ptr<void> counted_handle(const Shape &shape, std::size_t *const allocated_size) {
+  if (g_fail_allocs > 0) { --g_fail_allocs; PRIMITIV_THROW_ERROR("Memory allocation failed (injected)."); }
   const std::uint32_t mem_size = sizeof(float) * shape.size();
   void *data = std::malloc(mem_size);
   if (!data) PRIMITIV_THROW_ERROR("Memory allocation failed. Requested size: " << mem_size);
@@ -138,6 +140,7 @@ static std::string exec(World &w, const std::vector<std::string> &a) {
     return g_live == 0 ? "ok" : "ok leaked " + std::to_string(g_live);
   }
   if (op == "live" && n == 1) return "ok " + std::to_string(g_live);
+  if (op == "failnext" && n == 2) { g_fail_allocs = static_cast<long>(vh::to_u32(a[1])); return "ok"; }   // 0 switches it off
   if (op == "readall" && n == 1) {
     std::uint32_t top = 0;
     bool any = false;
